@@ -9,7 +9,9 @@ use serde_json::{json, Value};
 use std::io::Write;
 
 pub const ACCS: &[&str] = &["u8","u16","u32","u64","i8","i16","i32","i64","int","char","bool","null","undefined","simple","f16","f32","f64",
-                            "bytes","str","bytes_iter","str_iter","array","map","tag","datatype","skip","item"];
+                            "bytes","str","bytes_iter","str_iter","array","map","tag","datatype","skip","item","array_iter","map_iter","array_iter_with","map_iter_with"];
+/// entry points also run through Decoder::probe() (the probing decoder must stay where it was)
+pub const PROBED: &[&str] = &["u64", "int", "str", "bytes_iter", "array", "map_iter", "tag", "datatype", "skip", "f64"];
 
 fn alloc_bound(n: usize) -> usize { 256 * n + 16384 }
 
@@ -30,6 +32,18 @@ fn run_all(buf: &[u8], pos: usize, keep: bool, viol: &mut Vec<Value>, kept: &mut
             if bad { viol.push(ev) } else { kept.push(ev) }
         }
     }
+    for a in PROBED {
+        let input = json!({"buf": bj, "pos": pos});
+        crate::alloc::reset();
+        let obs = run_op("probe", a, &input);
+        let alloc = crate::alloc::total();
+        calls += 1;
+        let bad = obs["p"] == "panic" || obs["pos"].as_u64().map(|p| p as usize > bound).unwrap_or(true) || obs["opos"].as_u64() != Some(pos as u64) || alloc > alloc_bound(buf.len()) + 4096;
+        if bad || keep {
+            let ev = json!({"fam":"probe","name":a,"in":input,"obs":obs,"alloc":alloc});
+            if bad { viol.push(ev) } else { kept.push(ev) }
+        }
+    }
     if pos == 0 {
         for name in crate::types::NAMES {
             let obs = crate::ops::guarded(|| crate::types::decode_named(name, buf).unwrap());
@@ -44,8 +58,8 @@ fn run_all(buf: &[u8], pos: usize, keep: bool, viol: &mut Vec<Value>, kept: &mut
         // tokenizer and display
         let obs = run_op("tok", "bytes", &json!({"buf": bj}));
         calls += 1;
-        let bad = obs["p"] != "run" || obs["count"].as_u64().map(|c| c as usize > buf.len()).unwrap_or(true);
-        if bad || keep { let ev = json!({"fam":"tokcount","name":"tokens","in":{"buf": bj},"obs":{"p":obs["p"],"count":obs["count"]}}); if bad { viol.push(ev) } else { kept.push(ev) } }
+        let bad = obs["p"] != "run" || obs["count"].as_u64().map(|c| c as usize > buf.len()).unwrap_or(true) || obs["bcount"].as_u64().map(|c| c as usize > buf.len()).unwrap_or(true);
+        if bad || keep { let ev = json!({"fam":"tokcount","name":"tokens","in":{"buf": bj},"obs":{"p":obs["p"],"count":obs["count"],"bcount":obs["bcount"]}}); if bad { viol.push(ev) } else { kept.push(ev) } }
         let obs = run_op("display", "fmt", &json!({"buf": bj}));
         calls += 1;
         let bad = obs["p"] != "run" || obs["overflow"] == true;
